@@ -122,6 +122,8 @@ FEATURES = {
     "enum-params": featgen.wrap({"A": OBJ({"x": {"type": "string"}})}, resp="A", method="get",
                                 params=[{"name": "X-Mode", "in": "header", "required": True, "schema": {"type": "string", "enum": ["fast", "Slow"]}},
                                         {"name": "X-Level", "in": "header", "schema": {"type": "string", "enum": ["lo", "HI", "Mid-1"]}},
+                                        {"name": "X-RateLimit-Window", "in": "header", "schema": {"type": "integer"}}, {"name": "ETag", "in": "header", "schema": {"type": "string"}},
+                                        {"name": "xApiKey", "in": "header", "required": True, "schema": {"type": "string"}}, {"name": "x_tenant.id", "in": "header", "schema": {"type": "string"}},
                                         {"name": "sort", "in": "query", "schema": {"type": "string", "enum": ["asc", "Desc"]}},
                                         {"name": "kind", "in": "path", "required": True, "schema": {"type": "string", "enum": ["cat", "Dog"]}}]),
 }
@@ -287,13 +289,14 @@ def arena(ctx, n_random, per_round=120):
                 ok["items"] = [it for it in ok["items"]] + tt["items"]
                 ok["imports"] = dict(ok.get("imports", {}), **tt.get("imports", {}))
                 ok["mentions"] = dict(ok.get("mentions", {}), **tt.get("mentions", {}))
+                ok["const_mentions"] = dict(ok.get("const_mentions", {}), **tt.get("const_mentions", {}))
             mods[i] = {"mode": "types" if mode == "types" else "dir", "files": files}
         errs = c01_arena.compile_modules(mods, note=ctx.note)
         for i, t in chunk:
             if i not in mods:
                 continue
             ok = t["impl"]["ok"]
-            dig = {k: ok[k] for k in ("items", "imports", "mentions")}
+            dig = {k: ok[k] for k in ("items", "imports", "mentions", "const_mentions") if k in ok}
             inp = {k: v for k, v in t["in"].items() if k != "want"}
             judged.append({"op": "comp.rustc", "in": inp, "primary": {"spec": inp["spec"], "mode": inp["mode"], "cfg": inp["cfg"]},
                            "impl": {"digest": dig, "errors": [err_digest(e) for e in errs[i]], "warnings": ok.get("warnings", [])}})
